@@ -24,6 +24,9 @@ impl NdWriter {
         serde_json::to_writer(&mut self.w, v).expect("write");
         self.w.write_all(b"\n").expect("write");
     }
+    pub fn flush(&mut self) {
+        self.w.flush().expect("flush");
+    }
     pub fn finish(mut self) {
         self.w.flush().expect("flush");
     }
